@@ -346,7 +346,7 @@ func (c *Ctx) typedRules(r *Report, scope map[*ssa.Function]bool) {
 			return
 		}
 		// documented exceptions
-		if fname == "(*parseState).addArgs" && len(bad) == 1 && bad[0] == "foreign:convert" {
+		if aa := c.Fn("(*parseState).addArgs"); aa != nil && c.actsFor(fn, aa) && len(bad) == 1 && bad[0] == "foreign:convert" {
 			r.Allow("TYPED", fname, what, c.ipos(at), "the positional-argument conversion error is stored raw; positional conversion is not among the causes whose Type the property fixes")
 			return
 		}
@@ -380,19 +380,19 @@ func (c *Ctx) typedRules(r *Report, scope map[*ssa.Function]bool) {
 	}
 	// cause → type table
 	want := map[string][]string{
-		"(*Parser).parseLong":            {"ErrUnknownFlag"},
-		"(*Parser).parseShort":           {"ErrUnknownFlag"},
-		"(*Parser).parseOption":          {"ErrNoArgumentForBool", "ErrExpectedArgument"},
-		"(*Parser).marshalError":         {"ErrMarshal"},
-		"(*Parser).parseNonOption":       {"ErrUnknownCommand"},
-		"(*parseState).checkRequired":    {"ErrRequired"},
-		"(*parseState).estimateCommand":  {"ErrUnknownCommand", "ErrCommandRequired"},
-		"(*Option).Set":                  {"ErrInvalidChoice"},
-		"(*Option).call":                 {"ErrNoArgumentForBool"},
-		"(*Parser).showBuiltinHelp":      {"ErrHelp"},
-		"wrapError":                      {"ErrUnknown"},
-		"(*multiTag).scan":               {"ErrTag"},
-		"(*Group).scanStruct":            {"ErrShortNameTooLong", "ErrInvalidTag"},
+		"(*Parser).parseLong":               {"ErrUnknownFlag"},
+		"(*Parser).parseShort":              {"ErrUnknownFlag"},
+		"(*Parser).parseOption":             {"ErrNoArgumentForBool", "ErrExpectedArgument"},
+		"(*Parser).marshalError":            {"ErrMarshal"},
+		"(*Parser).parseNonOption":          {"ErrUnknownCommand"},
+		"(*parseState).checkRequired":       {"ErrRequired"},
+		"(*parseState).estimateCommand":     {"ErrUnknownCommand", "ErrCommandRequired"},
+		"(*Option).Set":                     {"ErrInvalidChoice"},
+		"(*Option).call":                    {"ErrNoArgumentForBool"},
+		"(*Parser).showBuiltinHelp":         {"ErrHelp"},
+		"wrapError":                         {"ErrUnknown"},
+		"(*multiTag).scan":                  {"ErrTag"},
+		"(*Group).scanStruct":               {"ErrShortNameTooLong", "ErrInvalidTag"},
 		"(*Group).checkForDuplicateFlags$1": {"ErrDuplicatedFlag"},
 	}
 	for fn := range scope {
@@ -522,7 +522,7 @@ func (c *Ctx) progressRules(r *Report) {
 				for b := range l.Blocks {
 					if iff, isIf := b.Instrs[len(b.Instrs)-1].(*ssa.If); isIf {
 						lt := c.cond(iff.Cond)
-						if lt.Term == "lt("+c.term(p)+", len(P1))" && !l.Blocks[b.Succs[1]] {
+						if (lt.Term == "lt("+c.term(p)+", len(P1))" || lt.Term == "lt(("+c.term(p)+" + 1), len(P1))") && !l.Blocks[b.Succs[1]] {
 							bounded = true
 						}
 					}
